@@ -280,7 +280,7 @@ func (ssm *serverSessionMedia) readPacketRTPUDPPlay(payload []byte) bool {
 	ssm.bytesReceived.Add(uint64(len(payload)))
 
 	now := ssm.ss.s.timeNow()
-	ssm.ss.udpLastPacketTime.Store(now.Unix())
+	ssm.ss.udpLastPacketTime.Store(now.UnixNano())
 
 	if len(payload) == (udpMaxPayloadSize + 1) {
 		ssm.onPacketRTPDecodeError(liberrors.ErrServerRTPPacketTooBigUDP{})
@@ -294,7 +294,7 @@ func (ssm *serverSessionMedia) readPacketRTCPUDPPlay(payload []byte) bool {
 	ssm.bytesReceived.Add(uint64(len(payload)))
 
 	now := ssm.ss.s.timeNow()
-	ssm.ss.udpLastPacketTime.Store(now.Unix())
+	ssm.ss.udpLastPacketTime.Store(now.UnixNano())
 
 	if len(payload) == (udpMaxPayloadSize + 1) {
 		ssm.onPacketRTCPDecodeError(liberrors.ErrServerRTCPPacketTooBigUDP{})
@@ -308,7 +308,7 @@ func (ssm *serverSessionMedia) readPacketRTPUDPRecord(payload []byte) bool {
 	ssm.bytesReceived.Add(uint64(len(payload)))
 
 	now := ssm.ss.s.timeNow()
-	ssm.ss.udpLastPacketTime.Store(now.Unix())
+	ssm.ss.udpLastPacketTime.Store(now.UnixNano())
 
 	if len(payload) == (udpMaxPayloadSize + 1) {
 		ssm.onPacketRTPDecodeError(liberrors.ErrServerRTPPacketTooBigUDP{})
@@ -322,7 +322,7 @@ func (ssm *serverSessionMedia) readPacketRTCPUDPRecord(payload []byte) bool {
 	ssm.bytesReceived.Add(uint64(len(payload)))
 
 	now := ssm.ss.s.timeNow()
-	ssm.ss.udpLastPacketTime.Store(now.Unix())
+	ssm.ss.udpLastPacketTime.Store(now.UnixNano())
 
 	if len(payload) == (udpMaxPayloadSize + 1) {
 		ssm.onPacketRTCPDecodeError(liberrors.ErrServerRTCPPacketTooBigUDP{})
